@@ -52,7 +52,9 @@ func (tag *Tag) reqproc() {
 		case r := <-tag.respchan:
 			rc := r.Rc
 			fid := r.fid
-			err := r.Rc.Type == Rerror
+			/* no reply at all (the connection failed, r.Err says why)
+			   is a failure like Rerror */
+			err := rc == nil || rc.Type == Rerror
 
 			switch r.Tc.Type {
 			case Tauth:
